@@ -26,6 +26,11 @@ FAILS = {
     "div_zero_bigint": ["fb = B5", "gv = fb / (fb - fb)"],
     "rem_zero_bigint": ["fb = B5", "gv = fb % (fb - fb)"],
     "div_zero_float": ["ff = 1.5", "gv = ff / (ff - ff)"],
+    # the float divisor is zero in each of its spellings: +0.0 (above), -0.0 out of arithmetic, -0.0 out of a rounding built-in
+    "div_negzero_float": ["ff = 1.5", "fm = 0.0 - 1.0", "fz = (ff - ff) * fm", "gv = ff / fz"],
+    "div_negzero_ceil": ["ff = 0.0 - 0.4", "fz = ff.ceil()", "gv = 1.5 / fz"],
+    "rem_zero_float": ["ff = 1.5", "gv = ff % (ff - ff)"],
+    "rem_negzero_float": ["ff = 1.5", "fm = 0.0 - 1.0", "fz = (ff - ff) * fm", "gv = ff % fz"],
     "div_zero_byte": ["fb = 0b11", "fz = 0b0", "gv = fb / fz"],
     "rem_zero_byte": ["fb = 0b11", "fz = 0b0", "gv = fb % fz"],
     "neg_min": ["fw = 0 - 2147483647 - a", "gv = -fw"],
